@@ -33,6 +33,10 @@ pub enum Msg {
     Refs(&'static str),
     Chg(&'static str, &'static str),
     Save(&'static str, &'static str),
+    /// a didChange without any content change: legal, carries no edit; its handler panics while
+    /// the loop holds the server for writing (the panic is contained) - nothing sent after it may
+    /// be lost because of it
+    ChgEmpty(&'static str),
 }
 
 pub const ALPHABET: &[(&str, Msg)] = &[
@@ -44,6 +48,7 @@ pub const ALPHABET: &[(&str, Msg)] = &[
     ("C2a", Msg::Chg("2", "# two A\n")),
     ("S1c", Msg::Save("1", "# one C\n\n[x](2)\n")),
     ("C3n", Msg::Chg("3", "# three\n\n[two](2)\n")),
+    ("E1", Msg::ChgEmpty("1")),
 ];
 
 fn initial_lib() -> HashMap<String, String> {
@@ -157,6 +162,10 @@ fn build_message(m: &Msg, req_id: i32, pos: usize) -> Message {
         Msg::Save(k, t) => Message::Notification(Notification::new(
             "textDocument/didSave".into(),
             DidSaveTextDocumentParams { text_document: TextDocumentIdentifier { uri: uri(k) }, text: Some(t.to_string()) },
+        )),
+        Msg::ChgEmpty(k) => Message::Notification(Notification::new(
+            "textDocument/didChange".into(),
+            DidChangeTextDocumentParams { text_document: VersionedTextDocumentIdentifier { uri: uri(k), version: version_at(pos) }, content_changes: vec![] },
         )),
     }
 }
@@ -347,20 +356,7 @@ pub fn run_schedule(script: &[(String, Msg)], prefix: &[Choice]) -> Exec {
                     if computing {
                         x.met_computing_worker = true;
                     }
-                    let msg = match &m {
-                        Msg::Chg(k, t) => Message::Notification(Notification::new(
-                            "textDocument/didChange".into(),
-                            DidChangeTextDocumentParams {
-                                text_document: VersionedTextDocumentIdentifier { uri: uri(k), version: version_at(pos) },
-                                content_changes: vec![TextDocumentContentChangeEvent { range: None, range_length: None, text: t.to_string() }],
-                            },
-                        )),
-                        Msg::Save(k, t) => Message::Notification(Notification::new(
-                            "textDocument/didSave".into(),
-                            DidSaveTextDocumentParams { text_document: TextDocumentIdentifier { uri: uri(k) }, text: Some(t.to_string()) },
-                        )),
-                        _ => unreachable!(),
-                    };
+                    let msg = build_message(&m, 0, pos);
                     client.sender.send(msg).unwrap();
                     // the loop announces that it is about to ask for write access
                     match wait(&rx) {
@@ -569,6 +565,10 @@ impl Expected {
                 let mut n = v.last().unwrap().clone();
                 n.insert(k.to_string(), t.to_string());
                 v.push(n);
+            } else if let Msg::ChgEmpty(_) = m {
+                // a notification that changes nothing: the same library once more
+                let n = v.last().unwrap().clone();
+                v.push(n);
             }
         }
         Expected { versions: v }
@@ -603,6 +603,10 @@ fn check_exec(script: &[(String, Msg)], exp: &Expected, x: &Exec) -> Vec<(String
         return bad;
     }
     for n in &x.loop_panics {
+        // (a didChange without content changes carries no edit: that its handler panics loses nothing)
+        if n.starts_with('E') {
+            continue;
+        }
         bad.push(("message-dropped".into(), format!("the loop's panic guard swallowed message {}", n)));
     }
     for (k, got) in &x.final_fmt {
